@@ -486,6 +486,38 @@ Fixpoint fresh_along (EP : N) (skip : N -> bool) (s : sp_st) (fr : bool) (tr : l
   | _, _ => true
   end.
 
+(* executable form of cyc_ok (proved equivalent: CtlXfer_proofs.cyc_okb_iff) *)
+Definition cyc_okb (EP : N) (s : sp_st) (i : N) (o : cx_out) : bool :=
+  Bool.eqb (o_dr o) (sp_dr EP s i) && Bool.eqb (o_sr o) (sp_sr EP s i) &&
+  impb (o_ds o || o_ss o) (o_dr o) &&
+  impb (o_txv o) (o_sr o || i_dv i || i_sv i) &&
+  impb (o_stall o) (o_dr o || o_sr o || i_dstall i) &&
+  impb (o_ack o) (i_sack i || o_sr o || sp_ping EP s i) &&
+  impb (i_sack i || sp_ping EP s i) (o_ack o) &&
+  negb (o_nak o) &&
+  impb (o_ac o || o_cc o || negb (o_halt o =? 0)) (i_ack i).
+
+(* The specification as an observer of (input word, packed output word) pairs, for the runtime oracle over
+   simulator traces of the real module: None = the environment assumption is broken from here on. *)
+Record mon_st := { m_e : env_st; m_s : sp_st; m_fr : bool }.
+Definition mon0 : mon_st := {| m_e := cx_env0; m_s := sp0; m_fr := false |}.
+Definition mon_enc (m : mon_st) : N :=
+  pk 2 (b2n (e_ls (m_e m))) (pk 16 (e_ep (m_e m)) (pk 2 (b2n (s_adv (m_s m))) (pk 2 (b2n (m_fr m))
+     (match s_cur (m_s m) with None => 0 | Some f => 1 + 2 * f end)))).
+Definition mon_dec (n : N) : mon_st :=
+  let r := n / 2 / 16 / 2 / 2 in
+  {| m_e := {| e_ls := nb (n mod 2); e_ep := (n / 2) mod 16 |};
+     m_s := {| s_cur := if r =? 0 then None else Some ((r - 1) / 2); s_adv := nb ((n / 2 / 16) mod 2) |};
+     m_fr := nb ((n / 2 / 16 / 2) mod 2) |}.
+Definition cx_mon (EP : N) (skip : N -> bool) (m i o : N) : option (N * bool) :=
+  let st := mon_dec m in
+  if cx_env_ok (m_e st) i then
+    let ou := cx_unpack o in
+    Some (mon_enc {| m_e := cx_env_next (m_e st) i; m_s := sp_next EP (m_s st) i;
+                     m_fr := fr_next EP (m_s st) (m_fr st) i |},
+          cyc_okb EP (m_s st) i ou && fr_ok EP skip (m_s st) (m_fr st) i ou)
+  else None.
+
 (* two input words that differ at most in what the token detector / data receiver report about the CURRENT
    token: new_token, ready_for_response, the kind flags, rx_ready_for_response *)
 Definition same_but_token (i j : N) : Prop :=
